@@ -66,6 +66,7 @@ def matrix_svd(A, e=1.E-10, r=1.E+12):
         (note that q <= r).
 
     """
+    A = np.asanyarray(A, dtype=float)
     m, n = A.shape
     C = A @ A.T if m <= n else A.T @ A
 
